@@ -24,6 +24,7 @@ import json
 import math
 import time
 
+from qv import c08_hist
 from qv import c08_search as cs
 from qv import optmode
 from qv.core import bits, mat
@@ -36,7 +37,13 @@ RULE = ('per code size: (a) n_k_d.d == model d for all sizes up to the bound (al
         'passes the Lean certificate with weight exactly d; (d) small sizes: verified least logical weight == d; '
         '(e) independent numpy search (true notion: in N(S) and not in span S) on the same and larger sizes; '
         '(f) the same codes constructed under `python -O` (child interpreter): n_k_d / matrices identical to normal mode, '
-        '(b),(c) and the exact distance on the -O matrices of the small sizes. '
+        '(b),(c) and the exact distance on the -O matrices of the small sizes; '
+        '(g) code OBJECTS under argument types and histories (qv/c08_hist.py): sizes given as numpy int8/uint8/int16/uint16 '
+        'at the overflow thresholds of each type (typed / plain object first, caches shared or cleared), the caller '
+        'editing in place arrays returned by paulitools / Pauli views / generate before and after the first use of a '
+        'code, user subclasses (trivial, XZ-swapped, stabilizer-multiplied, punctured variant) of the same size before '
+        'and after the genuine code: afterwards the distance facts are re-evaluated on a new object, each history in its '
+        'own forked process. '
         'non-trivial = every case that involves the real matrices (b-d); (a) counts as trivial')
 
 FAMS = ('planar', 'toric', 'rotatedplanar', 'rotatedtoric', 'color666', 'five', 'steane')
@@ -232,6 +239,7 @@ def run(ctx):
     ctx.extra['codes_lean_search'] = n_lean
     ctx.extra['codes_py_search'] = n_py
     optmode.probe(ctx, 'C08')  # (f): fills ctx.explored['optimised_mode']
+    c08_hist.probe(ctx)        # (g): argument types at overflow sizes, caller mutations, user subclasses
     ctx.explored.update({
         'lower_bound_lean_search': {
             'evaluations': int(spent_lean), 'exhaustive': True, 'codes': explored['lean_search'],
@@ -292,6 +300,9 @@ def replay(ctx, path):
             continue
         if ce.get('optmode'):
             rc = 1 if optmode.recheck('C08', ce) else rc
+            continue
+        if ce.get('history_kind'):
+            rc = 1 if c08_hist.recheck(ce) else rc
             continue
         code = make_code(fam, args)
         n, k, d = (int(x) for x in code.n_k_d)
